@@ -79,8 +79,7 @@ pub async fn verif_serve(
     connection: ::lsp_server::Connection,
     cmd_args: CmdArgs,
 ) -> Result<(), Box<dyn Error + Sync + Send>> {
-    let (id, params) = connection.initialize_start()?;
-    let initialization_params: InitializeParams = serde_json::from_value(params)?;
+    let (id, initialization_params) = initialize_start(&connection)?;
     let server_capabilities = server_capabilities(&initialization_params.capabilities);
     let initialize_data = serde_json::json!({
         "capabilities": server_capabilities,
